@@ -698,12 +698,21 @@ class NITFLoop(NITFElement):
             return
         if not isinstance(value, tuple):
             value = tuple(value)
+        if len(value) > self._values_limit():
+            raise ValueError(
+                'values of {} can hold at most {} entries (digits of the count field). '
+                'Got {}'.format(self.__class__.__name__, self._values_limit(), len(value)))
         for i, entry in enumerate(value):
             if not isinstance(entry, self._child_class):
                 raise TypeError(
                     'values must be of type {}, got entry {} of type {}'.format(
                         self._child_class, i, type(entry)))
         self._values = value
+
+    @classmethod
+    def _values_limit(cls):
+        """The largest number of entries the count field can announce."""
+        return 10**cls._count_size - 1
 
     def __len__(self):
         return len(self._values)
